@@ -233,7 +233,7 @@ def main(tier, seed):
     t0 = time.time()
     rep = C.Reporter(PID, tier, seed)
     C.build(['repo', 'core'])
-    n = 2000 if tier == 'quick' else 40000
+    n = 4000 if tier == 'quick' else 40000
     rundir = C.mktmp(PID)
     _RUN.update(tier=tier, seed=seed, dir=rundir)
     results = C.pmap(_case, list(range(n)), chunksize=4, stop_after_bad=40,
